@@ -319,6 +319,13 @@ def gen_module(rng, max_depth=3, want=None):
                 emit_function(prefix + [nm], indent + 1, True)
             else:
                 emit_class(prefix + [nm], indent + 1, depth + 1)
+        mine = [l for l in locs if l["path"][:-1] == prefix + [nm] and l["kind"] == "attr_annassign"]
+        if mine and rng.random() < 0.25:
+            # the same attribute declared again inside a conditional block (not a member of the class body list)
+            lines.append(pad + "    if len('zq') > 5:")
+            again = rng.choice(mine)
+            again["redeclared_in_block"] = True
+            lines.append(pad + "        {}: int = {}".format(again["path"][-1], rng.randint(100, 999)))
         lines.append("")
 
     n_top = rng.randint(2, 6)
@@ -332,6 +339,12 @@ def gen_module(rng, max_depth=3, want=None):
             lines.append("")
         else:
             emit_class([], 0, 1)
+    mine = [l for l in locs if len(l["path"]) == 1 and l["kind"] == "annassign"]
+    if mine and rng.random() < 0.3:
+        # a module-level setting assigned again inside a conditional block
+        again = rng.choice(mine)
+        again["redeclared_in_block"] = True
+        lines += ["if len('zq') > 5:", "    {}: int = {}".format(again["path"][-1], rng.randint(100, 999)), ""]
     if rng.random() < 0.3:
         lines += ["if __name__ == '__main__':", "    print('zq_main')"]
     src = "\n".join(lines)
